@@ -1,0 +1,65 @@
+//go:build verif
+
+package v2
+
+// Machine-checked contracts for this package (comment-only; compiled only with
+// -tags verif). Read by /verif/govc, see /verif/DESIGN.md.
+
+//@ func (*BlockHeader).Serialize(b) (out)
+//@   property C01 C04
+//@   nopanic
+//@   ensures[len] len(out) == 16
+//@   ensures[csize] le32(out, 0) == b.CompressedSize
+//@   ensures[usize] le32(out, 4) == b.UncompressedSize
+//@   ensures[count] le16(out, 8) == b.EntryCount
+//@   ensures[crc] le32(out, 10) == b.Checksum
+//@   ensures[flags] le16(out, 14) == b.Flags
+//@   ensures[fresh] fresh(out)
+
+//@ func (*BlockHeader).Deserialize(b, buf) (err)
+//@   property C01 C04
+//@   nopanic
+//@   modifies all(b)
+//@   ensures[short] len(buf) < 16 ==> err != nil
+//@   ensures[ok] len(buf) >= 16 ==> err == nil
+//@   ensures[csize] err == nil ==> b.CompressedSize == le32(buf, 0)
+//@   ensures[usize] err == nil ==> b.UncompressedSize == le32(buf, 4)
+//@   ensures[count] err == nil ==> b.EntryCount == le16(buf, 8)
+//@   ensures[crc] err == nil ==> b.Checksum == le32(buf, 10)
+//@   ensures[flags] err == nil ==> b.Flags == le16(buf, 14)
+
+//@ func (*Entry).Size(e) (n)
+//@   property C01
+//@   nopanic
+//@   ensures[size] n == 7 + len(e.Key) + len(e.Data)
+
+//@ func (*Entry).Serialize(e) (out)
+//@   property C01 C04
+//@   nopanic
+//@   requires[key_encodable] len(e.Key) <= 65535
+//@   requires[data_encodable] len(e.Data) <= 4294967295
+//@   ensures[len] len(out) == 7 + len(e.Key) + len(e.Data)
+//@   ensures[op] out[0] == e.Operation
+//@   ensures[klen] le16(out, 1) == len(e.Key)
+//@   ensures[key] forall i in 0..len(e.Key): out[3+i] == e.Key[i]
+//@   ensures[dlen] le32(out, 3+len(e.Key)) == len(e.Data)
+//@   ensures[data] forall i in 0..len(e.Data): out[7+len(e.Key)+i] == e.Data[i]
+//@   ensures[fresh] fresh(out)
+
+//@ func (*Entry).Deserialize(e, buf) (n, err)
+//@   property C01 C04
+//@   nopanic
+//@   modifies all(e)
+//@   ensures[short] len(buf) < 7 ==> err != nil
+//@   ensures[errzero] err != nil ==> n == 0
+//@   ensures[trunc_key] len(buf) >= 7 && len(buf) < 7 + le16(buf, 1) ==> err != nil
+//@   ensures[empty_key] len(buf) >= 7 && le16(buf, 1) == 0 ==> err != nil
+//@   ensures[trunc_data] len(buf) >= 7 + le16(buf, 1) && len(buf) < 7 + le16(buf, 1) + le32(buf, 3 + le16(buf, 1)) ==> err != nil
+//@   ensures[accepts] len(buf) >= 7 && le16(buf, 1) > 0 && len(buf) >= 7 + le16(buf, 1) + le32(buf, 3 + le16(buf, 1)) ==> err == nil
+//@   ensures[n] err == nil ==> n == 7 + le16(buf, 1) + le32(buf, 3 + le16(buf, 1)) && n <= len(buf)
+//@   ensures[op] err == nil ==> e.Operation == buf[0]
+//@   ensures[klen] err == nil ==> len(e.Key) == le16(buf, 1) && len(e.Key) > 0
+//@   ensures[key] err == nil ==> forall i in 0..len(e.Key): e.Key[i] == buf[3+i]
+//@   ensures[dlen] err == nil ==> len(e.Data) == le32(buf, 3 + le16(buf, 1))
+//@   ensures[data] err == nil ==> forall i in 0..len(e.Data): e.Data[i] == buf[7+len(e.Key)+i]
+//@   ensures[data_fresh] err == nil && len(e.Data) > 0 ==> fresh(e.Data)
